@@ -240,6 +240,21 @@ def gen(rng, tier, index, family=None, faulty_kind=None, mode=None):
             'reassign_after_get': not loose, 'max_statements': 12,
             'units_raw': 0.35 if loose else 0.1})
         base = list(meta['parts'])
+        if loose:
+            # make sure the interesting sequence occurs: a read from a bulb
+            # of the faulty set, then commands that use the registers it
+            # left - to one light, to a group and to all
+            fp = [pop[i]['label'] for i in faulty
+                  if _kind_of(pop[i]) == 'plain']
+            if fp:
+                k = rng.randint(1, len(base))
+                base[k:k] = ['get "{}"'.format(rng.choice(fp)),
+                             rng.choice(['set all', 'on all',
+                                         'set "{}"'.format(
+                                             pop[sentinel]['label']),
+                                         'set group "{}"'.format(
+                                             pop[sentinel]['group'])]),
+                             'set all']
         inject = []
         if not faulty or rng.random() < 0.5:
             for _ in range(rng.randint(1, 3)):
